@@ -569,14 +569,19 @@ def inner_events_guard(prog, chk):
     b = prog.body("svgdx::element::SvgElement::inner_events")
     chk.touch(b)
     found = None
-    for x, i, st in b.all_stmts():
-        rv = st.get("rv")
-        if rv and rv.get("k") == "binop" and rv.get("op") in ("Gt", "Lt", "Ge", "Le", "Ne") and rv.get("aty") == "usize":
-            oa, ob = R.origin(b, rv["a"], carriers={}), R.origin(b, rv["b"], carriers={})
-            def comp(o):
-                # component of the Some payload of self.event_range
-                return o[0] in ("field", "unknown") and o[1] is not None and any(str(p_).endswith("event_range") for p_ in (o[1][1] if isinstance(o[1], tuple) else [])) or (o[0] == "field")
-            found = (rv["op"], oa[0], ob[0])
+    for bd in [b] + list(prog.closures_of(b)):
+        for x, i, st in bd.all_stmts():
+            rv = st.get("rv")
+            if rv and rv.get("k") == "binop" and rv.get("op") in ("Gt", "Lt", "Ge", "Le", "Ne") and rv.get("aty") == "usize":
+                oa, ob = R.origin(bd, rv["a"], carriers={}), R.origin(bd, rv["b"], carriers={})
+                found = (rv["op"], oa[0], ob[0])
+        # the same test on references (`|(start, end)| end > start` in a filter closure) is a call of PartialOrd
+        for (x, t, c) in bd.call_sites(lambda c: c.decl_path in ("std::cmp::PartialOrd::gt", "std::cmp::PartialOrd::lt", "std::cmp::PartialOrd::ge", "std::cmp::PartialOrd::le") and "usize" in c.inst):
+            oa, ob = R.origin(bd, t["args"][0], carriers={}), R.origin(bd, t["args"][1], carriers={})
+            found = (c.decl_path.split("::")[-1].capitalize(), oa[0], ob[0])
+    if found is None:
+        chk.undecided("A7.inner-events", "inner_events", b.where(), "no comparison of the two ends of the element's event range is found in inner_events(): how it tells an element with content from an empty one is not read here")
+        return
     ok = found is not None and found[0] in ("Gt", "Lt") and found[1] != "rv" and found[2] != "rv" and found[1] != "const" and found[2] != "const"
     chk.ob(ok, "A7.inner-events", "inner_events", b.where(), "inner_events() yields the (possibly empty) content list whenever end > start", f"the range guard of inner_events() is not the plain `end > start` (found {found}): an element whose tags are adjacent (`<svg xmlns=..></svg>`) loses its content list and is dropped by Container")
 
